@@ -446,3 +446,40 @@ Proof.
   destruct (bids a) as [|[w' x] rest]; [contradiction|]. destruct Hbids as [<- Hw].
   split; [exact Hw|]. rewrite (Hl' p _ Hw), (Hl p). unfold paid. rewrite Hp. unfold MOD. eqb_cases; lia.
 Qed.
+
+(* the hook under the emergency shutdown cannot fail on an open generation-1 auction whose module
+   account was not overdrawn when the auction started and (surplus) still holds the lot: the custody
+   invariant covers the refund *)
+Lemma send_ok l from to d x : 0 <= x <= l from d -> exists l', send l from to d x = LOk l'.
+Proof.
+  intros H. unfold send. destruct (Z.ltb_spec x 0); [lia|].
+  destruct (Z.eqb_spec x 0); [eauto|]. destruct (Z.ltb_spec (l from d) x); [lia|eauto].
+Qed.
+
+Lemma tick_esm_progress l0 a l now tm :
+  bid_denom a <> lot_denom a -> InvOpen l0 a l -> is_v1 (var a) = true ->
+  0 <= l0 MOD (bid_denom a) -> (var a = V1S -> 0 <= sell a <= l0 MOD (lot_denom a)) ->
+  exists s', tick_esm a l now tm = Ok s'.
+Proof.
+  intros Hd HO Hv1 Hm Hlot. pose proof (open_not_ended l0 a l HO) as En.
+  destruct HO as (Hst & Hbuy & Hsb & Hbids & Hl). unfold paid in Hl.
+  unfold tick_esm, lift. rewrite En.
+  destruct (var a) eqn:Hv; try discriminate Hv1.
+  - specialize (Hlot eq_refl).
+    destruct (bidder a) as [w|] eqn:Hbd.
+    + destruct (bids a) as [|[w' x] rest]; [contradiction|]. destruct Hbids as [<- Hw].
+      destruct (send_ok l MOD w (bid_denom a) (buy a)) as [l1 S1].
+      { rewrite Hl, ?Hbd. unfold MOD in *. eqb_cases; lia. }
+      rewrite S1. apply send_spec in S1. destruct S1 as (_ & _ & _ & S1).
+      destruct (send_ok l1 MOD COLL (lot_denom a) (sell a)) as [l2 S2].
+      { rewrite S1, Hl, ?Hbd. unfold MOD in *. eqb_cases; lia. }
+      rewrite S2. eauto.
+    + destruct (send_ok l MOD COLL (lot_denom a) (sell a)) as [l1 S1].
+      { rewrite Hl, ?Hbd. unfold MOD in *. eqb_cases; lia. }
+      rewrite S1. eauto.
+  - destruct (bids a) as [|[w' x] rest]; [eauto|].
+    destruct (bidder a) as [w|] eqn:Hbd; [|contradiction]. destruct Hbids as [<- Hw].
+    destruct (send_ok l MOD w (bid_denom a) (buy a)) as [l1 S1].
+    { rewrite Hl, ?Hbd. unfold MOD in *. eqb_cases; lia. }
+    rewrite S1. eauto.
+Qed.
